@@ -12,9 +12,14 @@ def parseOp (o : String) : Option TcOp × Bool :=
     match ((o.drop 2).dropEnd 1).toString.splitOn "," with
     | [i, c] => (some (.insertWith i.toNat! c.toNat!), (o.endsWith "+") == (i == c))
     | _ => (none, false)
+  else if o.startsWith "ix" then
+    -- an upload refused for its size: nothing may stay under that id
+    match ((o.drop 2)).toString.splitOn "," with
+    | [i, _] => (some (.remove i.toNat!), true)
+    | _ => (none, false)
   else if o.startsWith "rm" then (some (.remove (o.drop 2).toString.toNat!), true)
   else if o.startsWith "ev" then (some (.evict (o.drop 2).toString.toNat!), true)
-  else if o == "ro" then (some .reopen, true)
+  else if o == "ro" || o == "rO" then (some .reopen, true)
   else (none, false)
 
 partial def loop (h : IO.FS.Stream) (n bad steps : Nat) : IO (Nat × Nat × Nat) := do
